@@ -179,7 +179,7 @@ class ConcPart(Part):
     engine = "CONC"
     name = "conc"
     rule = ("CONC: sequential set-up history, then 2-4 tasks x 1-2 calls under the seeded baton-passing "
-            "scheduler (policy per run: uniform random / PCT d<=3 / bounded pre-emption / probe-biased; wake-up "
+            "scheduler (policy per run: uniform random / PCT d<=3 / bounded pre-emption / probe-biased / race-directed postponing; wake-up "
             "choice FIFO or PRNG; spurious wake-ups); oracle = a sequential order consistent with per-task "
             "order and real-time precedence whose model execution yields every outcome and the final "
             "alpha(directory); then termination, empty locked lists, follow-up calls. distinct+non-trivial = "
